@@ -69,6 +69,26 @@ def scoping2():
                 yield ("scope2#%d %s-%s" % (n, order[0], order[1]), {"build.ninja": top, "a.ninja": a, "b.ninja": b})
 
 
+def path_scope():
+    """Variables inside the paths of a build statement, bound at file level, in the build block, or both: every
+    path position (output, implicit output, input, implicit, order-only, validation) sees the build block."""
+    n = 0
+    positions = ["out", "iout", "in", "imp", "oo", "val"]
+    for filev, buildv in itertools.product(("", "d = F\n"), ("", "  d = B\n")):
+        for mask in range(1, 1 << len(positions)):
+            use = {p: bool(mask >> i & 1) for i, p in enumerate(positions)}
+            if bin(mask).count("1") > 2 and mask != (1 << len(positions)) - 1:
+                continue   # singles, pairs and all six
+            def nm(p, base):
+                return ("$d/" if use[p] else "") + base
+            top = filev + "rule r\n  command = c $in $out\n"
+            top += "build %s | %s: r %s | %s || %s |@ %s\n%s" % (nm("out", "o"), nm("iout", "io"), nm("in", "i"), nm("imp", "im"),
+                                                                nm("oo", "oo"), nm("val", "v"), buildv)
+            top += "build after_$d: r x\n"
+            n += 1
+            yield ("pathscope#%d file=%d build=%d mask=%d" % (n, bool(filev), bool(buildv), mask), {"build.ninja": top})
+
+
 def forms():
     n = 0
     rule = "rule r\n  command = c $in $out\npool p\n  depth = 2\n"
